@@ -36,8 +36,19 @@ func LoadWordVectors(filepath string) (*Index, error) {
 		return nil, fmt.Errorf("failed to read vocab size: %w", err)
 	}
 
+	// The header is untrusted: every record takes at least a 2-byte length
+	// and a 100-float vector, so the file size bounds the number of words it
+	// can hold. Sizing the table from a larger (damaged) count could exhaust
+	// memory before the first record fails to read.
+	const dimension = 100 // GloVe 100d
+	if info, err := f.Stat(); err == nil {
+		if maxWords := info.Size() / int64(2+4*dimension); int64(vocabSize) > maxWords {
+			return nil, fmt.Errorf("vocab size %d exceeds what a %d-byte file can hold", vocabSize, info.Size())
+		}
+	}
+
 	idx := &Index{
-		Dimension:   100, // GloVe 100d
+		Dimension:   dimension,
 		WordVectors: make(map[string][]float32, vocabSize),
 	}
 
@@ -90,6 +101,14 @@ func (idx *Index) LoadCommandEmbeddings(filepath string) error {
 
 	if int(dimension) != idx.Dimension {
 		return fmt.Errorf("dimension mismatch: expected %d, got %d", idx.Dimension, dimension)
+	}
+
+	// The count is untrusted as well: it cannot exceed what the rest of the
+	// file can hold.
+	if info, err := f.Stat(); err == nil && dimension > 0 {
+		if maxCommands := (info.Size() - 8) / (4 * int64(dimension)); int64(numCommands) > maxCommands {
+			return fmt.Errorf("command count %d exceeds what a %d-byte file can hold", numCommands, info.Size())
+		}
 	}
 
 	// Read embeddings
